@@ -978,6 +978,18 @@ func (env *SpecEnv) evalCall(x *SExpr) *SV {
 	args := x.Args[1:]
 	if fnx.Op == "id" {
 		switch fnx.Name {
+		case "entry":
+			// entry(e): e in the state in which the function was entered (old() of a function that takes a lock refers
+			// to the state at its first acquire instead)
+			if env.fx == nil || env.fx.old == nil {
+				return env.eval(args[0])
+			}
+			{
+				n := *env
+				n.old = env.fx.old
+				n.inOld = true
+				return n.eval(args[0])
+			}
 		case "old":
 			if env.old == nil {
 				return env.eval(args[0])
